@@ -73,14 +73,14 @@ def closure(n, edges, flags, redirects):
     return m, m3
 
 
-def run_case(n, edges, flags, redirects, pre_probe=()):
+def run_case(n, edges, flags, redirects, pre_probe=(), names_override=None):
     """templates 0..n-1 (+ redirect pages n..); edges (a,b): body of b contains {{name_a}}"""
     global evaluations
     evaluations += 1
     with quiet_stdout():
         ctx = Wtp(quiet=True)
     try:
-        names = NAMES[:n]
+        names = list(names_override) if names_override else NAMES[:n]
         rnames = [f"R{i}" for i in range(len(redirects))]
         for t in pre_probe:                      # add-if-missing idiom before the page exists
             ctx.page_exists("Template:" + names[t], 10)
@@ -174,6 +174,11 @@ for _ in range(150 if tier == "quick" else 1500):
     reds = [(rng.choice(["to", "from"]), rng.randrange(n)) for _ in range(rng.randint(0, 2))]
     probe = [i for i in range(n) if rng.random() < 0.3]
     run_case(n, edges, flags, reds, probe)
+# case siblings whose upper-case form has the HIGHER code point (the includer is the lower-case one)
+for pair in (("ÿx", "Ÿx"), ("µ-box", "Μ-box"), ("lower", "Lower")):
+    for inc in (1, 2):
+        run_case(3, [(0, inc)], {0}, [], names_override=["A", pair[0], pair[1]])
+        run_case(3, [(0, inc), (inc, 3 - inc)], {0}, [], names_override=["A", pair[0], pair[1]])
 # redirect chains: a redirect whose destination is itself a (flagged or unflagged) redirect page
 for n in (1, 2):
     for k1 in ("to", "from"):
